@@ -634,8 +634,17 @@ def run_sequences(prefix_sc, seqs, step_asserts, workers=8, timeout_ms=120000):
     global _SHARED
     _SHARED = (prefix_sc, step_asserts, timeout_ms)
     ctx = mp.get_context('fork')
+    seqs = list(seqs)
+    # a worker that dies (crash inside z3, out of memory, ...) makes a multiprocessing pool wait forever: bound the wait
+    limit = 3 * timeout_ms / 1000 + 900
     with ctx.Pool(workers) as pool:
-        for out in pool.imap_unordered(_one_seq, list(seqs)):
+        it = pool.imap_unordered(_one_seq, seqs)
+        for _ in range(len(seqs)):
+            try:
+                out = it.next(timeout=limit)
+            except mp.TimeoutError:
+                pool.terminate()
+                raise HarnessError(f'a sequence worker did not answer within {int(limit)} s (lost or stuck worker)')
             yield out
 
 
